@@ -231,6 +231,11 @@ impl Database {
         }
 
         let mmap = self.mmap();
+        // Verification hook (Kani build only): record the copy as one ghost event.
+        #[cfg(kani)]
+        if anydb_verif_platform::mmap::ghost_copy(&mmap, src, dst, len) {
+            return Ok(());
+        }
         write_to_mmap(&mmap, dst, &mmap[src..src_end]);
         Ok(())
     }
